@@ -358,6 +358,49 @@ def rule_identity(P) -> RuleResult:
             muts = [e for e in p.events if e[0] == 'mutate' and isinstance(orows, SList) and e[1] == orows.id]
             if muts:
                 res.fail(construct, 'identity:rows', f'the output rows are reordered ({muts[0][2]})', loc(fi))
+    # two amount-like columns published under the same name with the same type: each is decomposed on its own cells
+    TW = [Sym('TWIN_COLUMN0'), Sym('TWIN_COLUMN1')]
+    calls2 = []
+
+    def on_call_tw(fname, fval, recv, args, kwargs, ex, node):
+        f = str(fname)
+        if f.endswith('CONVERTING_TYPES.get') and args:
+            return FACTORY
+        if fval == FACTORY:
+            calls2.append(args)
+            return SList([T('new', ('CurrencyConverter', (args[2] if len(args) > 2 else None,)))])
+        if f.split('.')[-1] == 'IdentityConverter':
+            return T('new', ('IdentityConverter', args))
+        return NotImplemented
+
+    def on_item_tw(base, idx, ex):
+        if isinstance(base, T) and base.op == 'global' and base.args[0].endswith('CONVERTING_TYPES'):
+            return FACTORY
+        return NotImplemented
+
+    def on_attr_tw(base, attr, ex):
+        if base in TW and attr == 'datatype':
+            return Sym('AMOUNT_TYPE')
+        if base in TW and attr == 'name':
+            return 'total'
+        return NotImplemented
+
+    def oracle_tw(term, ex):
+        if isinstance(term, T) and term.op == 'cmp' and term.args[0] in ('in', 'not in') and isinstance(term.args[2], T) \
+                and term.args[2].op == 'global' and str(term.args[2].args[0]).endswith('CONVERTING_TYPES'):
+            return term.args[0] == 'in'
+        return None
+    for p in Engine(P, on_call=on_call_tw, on_item=on_item_tw, on_attr=on_attr_tw, oracle=oracle_tw).paths(
+            fi, {fi.params[0]: SList(list(TW)), fi.params[1]: drows, fi.params[2]: DFORMAT}):
+        if p.outcome != 'return' or not (isinstance(p.value, T) and p.value.op == 'tuple' and len(p.value.args) == 2):
+            continue
+        want_types = T('tuple', tuple(T('call', ('Column', (_a(T('new', ('CurrencyConverter', (i,))), 'name'), _a(T('new', ('CurrencyConverter', (i,))), 'dtype')), ()))
+                                      for i in (0, 1)))
+        if canon(p.value.args[0]) != canon(want_types):
+            res.fail(construct, 'identity:twins', f'two amount-like columns with the same name and type are each decomposed from their own '
+                     f'cells (converters built for column index 0 and for column index 1); got `{show(p.value.args[0])[:200]}`'
+                     + (f' under the assumption {[show(t)[:40] for t, _ in p.decisions][:2]}' if p.decisions else ''), loc(fi))
+            break
     # IdentityConverter: copies the cell at its index, keeps name and datatype
     ident = m.classes.get('IdentityConverter')
     c = ident.methods.get('__call__') if ident else None
@@ -375,4 +418,88 @@ def rule_identity(P) -> RuleResult:
     if len(res.findings) == n0:
         res.ok({'function': fi.fq, 'identity': 'name, datatype, index', 'rows': 'one per input row, converters in column order',
                 'columns': 'converters in column order'})
+    return res
+
+
+# ----------------------------------------------------------------------
+# R-RUNQUERY (C17): run_query(numberify=True) numberifies the API result with the ledger's display precision
+
+def rule_runquery(P) -> RuleResult:
+    """query.run_query on terms: the statement is executed once through a connection over the given entries and options; with
+    numberify the description and rows of that result go to numberify_results together with the formatter built by the ledger's
+    display context with its default (most common) precision - "quantized to the currency's display precision"; without it the
+    result is returned as it is."""
+    res = RuleResult('R-RUNQUERY')
+    res.exhaustive = True
+    m = P.modules.get('beanquery.query')
+    fs = m.toplevel_funcs.get('run_query') if m else None
+    if not fs:
+        raise AnalysisError('anchor vanished: query.run_query')
+    fi = fs[-1]
+    ENTRIES, OPTIONS, QUERY = Sym('ENTRIES'), Sym('OPTIONS'), Sym('QUERY')
+    CONN, CURS, ROWS = Sym('CONNECTION'), Sym('CURSOR'), Sym('ROWS')
+    DESC = T('attr', (CURS, 'description'))
+    NDESC, NROWS = Sym('NUMBERIFIED_DESCRIPTION'), Sym('NUMBERIFIED_ROWS')
+    DCTX = T('item', (OPTIONS, 'dcontext'))
+    for numberify in (True, False):
+        seen = {}
+
+        def on_call(fn, fv, rc, args, kw, ex, node):
+            name = str(fn)
+            last = name.split('.')[-1]
+            if last == 'connect':
+                seen.setdefault('connect', []).append((args, dict(kw)))
+                return CONN
+            if rc == CONN and last == 'execute':
+                seen.setdefault('execute', []).append(args)
+                return CURS
+            if rc == CURS and last == 'fetchall':
+                return ROWS
+            if last == 'format' and rc == QUERY:
+                return T('call', ('QUERY.format', args, kw))
+            if last == 'numberify_results':
+                seen.setdefault('numberify', []).append((args, kw))
+                return T('tuple', (NDESC, NROWS))
+            return NotImplemented
+        env = dict(zip(fi.params[:3], (ENTRIES, OPTIONS, QUERY)))
+        env['numberify'] = numberify
+        a = fi.node.args
+        if a.vararg:
+            env[a.vararg.arg] = T('tuple', ())
+        n = 0
+        good = True
+        for p in Engine(P, on_call=on_call, max_depth=0).paths(fi, env):
+            n += 1
+            label = f'numberify={numberify}'
+            if p.decisions or p.outcome != 'return':
+                raise AnalysisError(f'{fi.fq}: {label}: {p.outcome}, undecided {[show(t)[:40] for t, _ in p.decisions]}')
+            con = seen.get('connect', [])
+            if len(con) != 1 or con[0][1].get('entries') != ENTRIES or con[0][1].get('options') != OPTIONS or len(seen.get('execute', [])) != 1:
+                good = False
+                res.fail(fi.fq, 'runquery:execute', f'{label}: the statement must be executed once on a connection over the given entries and '
+                         f'options', loc(fi))
+                continue
+            if numberify:
+                nb = seen.get('numberify', [])
+                fmt = T('call', (f'{show(DCTX)}.build', (), ()))
+                if len(nb) != 1 or nb[0][0][:2] != (DESC, ROWS):
+                    good = False
+                    res.fail(fi.fq, 'runquery:numberify', f'{label}: numberify_results must receive the description and rows of the result', loc(fi))
+                elif len(nb[0][0]) + len(nb[0][1]) != 3 or (nb[0][0][2] if len(nb[0][0]) > 2 else dict(nb[0][1]).get('dformat')) != fmt:
+                    got = nb[0][0][2] if len(nb[0][0]) > 2 else dict(nb[0][1]).get('dformat')
+                    good = False
+                    res.fail(fi.fq, 'runquery:precision', f'{label}: cells are quantized to the display precision of their currency: the '
+                             f'formatter is options["dcontext"].build() with its default (most common) precision; found `{show(got)[:100]}`', loc(fi))
+                elif p.value != T('tuple', (NDESC, NROWS)):
+                    good = False
+                    res.fail(fi.fq, 'runquery:result', f'{label}: the numberified description and rows must be returned; returns `{show(p.value)[:80]}`', loc(fi))
+            else:
+                if seen.get('numberify') or p.value != T('tuple', (DESC, ROWS)):
+                    good = False
+                    res.fail(fi.fq, 'runquery:result', f'{label}: the description and rows of the result must be returned unchanged; returns '
+                             f'`{show(p.value)[:80]}`', loc(fi))
+        if n == 0:
+            raise AnalysisError(f'{fi.fq}: no path interpreted')
+        if good:
+            res.ok({'function': fi.fq, 'numberify': numberify, 'paths': n})
     return res
